@@ -76,7 +76,7 @@ deriving DecidableEq, Repr
 def simulate (maxRead : Nat) (closed : Bool) : List Waiter → Bytes → List (Nat × Expect)
   | [], _ => []
   | w :: ws, stream =>
-    let o := parseFrameFast maxRead w.corr w.flex closed stream
+    let o := parseFrame maxRead w.corr w.flex closed stream
     match o.res with
     | .deliver body => (w.id, .deliver body) :: simulate maxRead closed ws o.rest
     | .needMore => (w.id, .pending) :: ws.map (fun x => (x.id, .behind))
@@ -100,7 +100,7 @@ def hsOk (s : St) (c : Nat) : Bool :=
   match s.hsReqs.find? (·.1 == c) with
   | none => false
   | some (_, corr) =>
-    match (parseFrameFast s.maxRead corr false (closedOf s c) (hsStreamOf s c)).res with
+    match (parseFrame s.maxRead corr false (closedOf s c) (hsStreamOf s c)).res with
     | .deliver _ => true
     | _ => false
 
